@@ -44,7 +44,11 @@ def tables(ctx, drv):
         bad = [it for it, a, b in zip(items, impl, model) if a != b]
         ctx.evaluations += len(items)
         for it in bad[:3]:
-            ctx.disagree('profile_fn.want_manifest', {'profile': pn, 'item': it}, None, None)
+            # the model's policy is proved to be the documented one (C19_want_manifest_iff_documented): a difference on a
+            # concrete directory IS the implementation deviating from the documented policy
+            ctx.fail('policy-differs-from-documented', {'op': 'want_manifest_in_directory', 'profile': pn, 'relpath': it[0],
+                                                         'dirnames': it[1], 'filenames': it[2]},
+                     f'want_manifest_in_directory{it!r}: implementation {impl[items.index(it)]}, documented {model[items.index(it)]}')
         ok = ok and not bad
         # get_entry_type_for_path
         paths = [r + '/' + f if r else f for r in rels for f in ['x.ebuild', 'metadata.xml', 'files', 'Manifest', 'y', 'files/p.patch']]
@@ -55,7 +59,8 @@ def tables(ctx, drv):
         bad = [it for it, a, b in zip(paths, impl, model) if a != b]
         ctx.evaluations += len(paths)
         for it in bad[:3]:
-            ctx.disagree('profile_fn.entry_type', {'profile': pn, 'path': it}, None, None)
+            ctx.fail('policy-differs-from-documented', {'op': 'get_entry_type_for_path', 'profile': pn, 'path': it},
+                     f'get_entry_type_for_path({it!r}): implementation {impl[paths.index(it)]}, documented {model[paths.index(it)]}')
         ok = ok and not bad
         # get_ignore_paths_for_new_manifest
         impl = [[cps(x) for x in P.get_ignore_paths_for_new_manifest(r)] for r in rels]
@@ -63,7 +68,8 @@ def tables(ctx, drv):
         bad = [it for it, a, b in zip(rels, impl, model) if a != b]
         ctx.evaluations += len(rels)
         for it in bad[:3]:
-            ctx.disagree('profile_fn.ignore_paths', {'profile': pn, 'relpath': it}, None, None)
+            ctx.fail('policy-differs-from-documented', {'op': 'get_ignore_paths_for_new_manifest', 'profile': pn, 'relpath': it},
+                     f'get_ignore_paths_for_new_manifest({it!r})')
         ok = ok and not bad
         # want_compressed_manifest
         import gemato.manifest as gm
@@ -83,7 +89,8 @@ def tables(ctx, drv):
         bad = [it for it, a, b in zip(items, impl, model) if a != b]
         ctx.evaluations += len(items)
         for it in bad[:3]:
-            ctx.disagree('profile_fn.want_compressed', {'profile': pn, 'item': it}, None, None)
+            ctx.fail('policy-differs-from-documented', {'op': 'want_compressed_manifest', 'profile': pn, 'item': list(it)},
+                     f'want_compressed_manifest{it!r}')
         ok = ok and not bad
         # loader defaults
 
